@@ -77,6 +77,7 @@ class Interp:
         self.known_scanned = len(measured.Unit._known)
         self.restarted = 0
         self.carry = None
+        self.ok_ids = set()
         self.states = set()     # distinct unit normal forms produced (a measure of states reached)
         self.creators = {}      # id(unit) -> qualname of the library function that interned it
         self._inj = None
@@ -205,7 +206,9 @@ class Interp:
             return out
         for o in ops[:k]:
             if o["op"] in self.RESTART_KEEP or (o["op"] == "prefix_new" and (o.get("name") or o.get("symbol"))):
-                if "inject" in o or o.get("fault"):
+                # exactly the definitions that took effect in this world (a definition that
+                # failed, by validation or by an injected exception, defined nothing)
+                if o.get("id") not in self.ok_ids:
                     continue
                 keep.add(o.get("id"))
                 stack.extend(refs(o))
@@ -213,11 +216,17 @@ class Interp:
             i = stack.pop()
             if i in keep or i not in by_id:
                 continue
-            if by_id[i]["op"] in ("dump", "load", "restart"):
-                continue
+            if by_id[i]["op"] in ("dump", "restart"):
+                continue      # blobs are carried over as bytes; a load can be repeated from them
             keep.add(i)
-            stack.extend(refs(by_id[i]))
-        return [o for o in ops[:k] if o.get("id") in keep] + list(ops[k + 1:])
+            if by_id[i]["op"] != "load":
+                stack.extend(refs(by_id[i]))
+        out = []
+        for o in ops[:k]:
+            if o.get("id") in keep:
+                o = {a: b for a, b in o.items() if a != "inject"}
+                out.append(o)
+        return out + list(ops[k + 1:])
 
     def run(self, ops):
         cont = None
@@ -316,6 +325,8 @@ class Interp:
         else:
             rec["out"] = "ok"
             self.count("ok:" + name)
+            if "id" in op:
+                self.ok_ids.add(op["id"])
         if "id" in op:
             self.vals[op["id"]] = (out_kind, value)
             self.mvals[op["id"]] = mval
@@ -603,6 +614,13 @@ class Interp:
 
             with codecs_installed():
                 y = json.loads(json.dumps(x))
+        elif codec == "json_ctx_opts":
+            # installed codecs must also serve callers that pass ordinary json options
+            from measured.json import codecs_installed
+
+            with codecs_installed():
+                text = json.dumps(x)
+                y = json.loads(text, strict=False) if op.get("id", 0) % 2 else json.loads(text, parse_constant=float)
         else:
             raise ValueError(codec)
         return op["kind"], y, mx, {"_orig": x}
@@ -645,6 +663,8 @@ class Interp:
         blob = self._serialise(x, op["codec"])
         blob["kind"] = op["kind"]
         blob["model"] = M.nf_json(mx) if (mx is not None and op["kind"] in ("unit", "qty")) else None
+        if op["kind"] == "dim" and mx is not None:
+            blob["model_dim"] = list(mx)
         if op["kind"] == "qty":
             blob["m"] = mag_desc(x.magnitude)
             if op["codec"] in ("json", "composite"):
@@ -662,6 +682,8 @@ class Interp:
         (blob, _), = prepared
         y = self._deserialise(blob)
         mx = M.nf_from_json(blob["model"]) if blob.get("model") else None
+        if blob.get("model_dim") is not None:
+            mx = tuple(blob["model_dim"])
         return blob["kind"], y, mx, {"_blob": blob, "codec": blob["codec"], "restarted": bool(self.restarted)}
 
     def op_json_nested(self, op, prepare, prepared=None):
@@ -722,6 +744,9 @@ class Interp:
         for n, p in self.L.Prefix._by_name.items():
             if n not in self.model.prefix_names:
                 self.model.prefix_names[n] = M.p_norm([(p.base, Fraction(p.exponent))])
+        for x, p in self.L.Prefix._by_symbol.items():
+            if x not in self.model.prefix_symbols:
+                self.model.prefix_symbols[x] = M.p_norm([(p.base, Fraction(p.exponent))])
         return None, ABSENT, None, {"new_units": len(new)}
 
 
